@@ -52,8 +52,6 @@ def next_act(
   if actuator_dyntype == DynType.FILTEREXACT:
     tau = wp.max(MJ_MINVAL, actuator_dynprm[0])
     act = act_in + act_dot_scale * act_dot_in * tau * (1.0 - wp.exp(-opt_timestep / tau))
-  elif actuator_dyntype == DynType.USER:
-    return act_in
   else:
     act = act_in + act_dot_scale * act_dot_in * opt_timestep
 
